@@ -75,7 +75,13 @@ def scan_trusted(lines):
         found.append('assume_specification ' + ' '.join(m.group(1).split()))
     ls = [l.text for l in lines]
     for i, t in enumerate(ls):
-        if 'verifier::external_body' in t:
+        if 'verifier::external_body' in t and 'imported from unit' in t:
+            for k in range(i, min(i + 8, len(ls))):
+                m = re.search(r'\bfn\s+([A-Za-z_0-9]+)', ls[k])
+                if m:
+                    found.append('imported contract %s (%s)' % (m.group(1), t.split('//')[1].strip()))
+                    break
+        elif 'verifier::external_body' in t:
             # name of the next fn
             for k in range(i, min(i + 6, len(ls))):
                 m = re.search(r'\bfn\s+([A-Za-z_0-9]+)', ls[k])
